@@ -11,7 +11,7 @@ mkdir -p work
 for dir in ${SEEDS:-$(ls seeded | grep -E '^C[0-9]{2}[a-z]?$')}; do
   c=${dir:0:3}
   git -C "$REPO_COPY" checkout -q -- .
-  git -C "$REPO_COPY" apply "seeded/$dir/patch.diff" || { echo "$dir patch failed"; continue; }
+  git -C "$REPO_COPY" apply "$PWD/seeded/$dir/patch.diff" || { echo "$dir patch failed"; continue; }
   timeout 3600 ./check $c --tier quick > work/o_$dir.log 2>&1
   rc=$?
   printf "%s\t%s\t%s\t%s\t%s\n" "$dir" "$c" "$rc" "$(grep -c '^VIOLATION' work/o_$dir.log)" "$(grep -m1 'violation:' work/o_$dir.log | cut -c1-160)" >> work/owners.tsv
